@@ -3,7 +3,8 @@
    moments / central_moment_coefficients / horner / central_moment(s) / kurtosis / skewness),
    here instantiated at the real numbers (Num/RInst.v).  The same definitions instantiated at
    binary64 / binary32 are compared bit for bit with the implementation by the correspondence
-   check.  PARTIAL: no end-to-end forward-error theorem for the floating-point instances. *)
+   check.  PARTIAL: no end-to-end forward-error theorem for the floating-point instances; the sign
+   clause IS proved for binary64 (Props/C07_f64.v), where the proof attempt found defect D6. *)
 From Coq Require Import Reals List Arith Lia Permutation.
 Import ListNotations.
 From NS Require Import Num.Ops Num.Kernels Num.RInst Num.KernelsR.
@@ -41,6 +42,13 @@ Theorem C07_skip_agrees : forall data ws ddof, (forall w, In w ws -> w <> 0) ->
   west_v0 R_ops data ws ddof = west R_ops data ws ddof.
 Proof. exact west_skip_agrees. Qed.
 Print Assumptions C07_skip_agrees.
+
+(* the repair of D6 (West's original update of the sum of squares) does not change the value in
+   exact arithmetic *)
+Theorem C07_D6_repair_agrees : forall data ws ddof, length ws = length data -> ~ K3 ws ->
+  west_v1 R_ops data ws ddof = west R_ops data ws ddof.
+Proof. exact west_v1_agrees. Qed.
+Print Assumptions C07_D6_repair_agrees.
 
 (* central_moment(p) = (1/n) sum (x - xbar)^p for every p (order 0 is exactly 1, order 1 exactly 0),
    for every valid summation plan *)
